@@ -108,3 +108,90 @@ def fill(arr, series, extra):
     for t in range(n):
         for lab in labels(extra):
             arr.values[(t,) + lab] = series[(t, lab)]
+
+
+# ---- running stocks ------------------------------------------------------------------------------
+
+KINDS = ("inflow", "stock-manual", "stock-lapack")
+
+
+def driver_series(name, n, extra):
+    """named deterministic driver: dict (t, label) -> float"""
+    labs = labels(extra)
+    out = {}
+    parts = name.split(":")
+    for t in range(n):
+        for li, lab in enumerate(labs):
+            if parts[0] == "imp":
+                v = 1.0 if (t == int(parts[1]) and li == int(parts[2])) else 0.0
+            elif parts[0] == "pos":
+                v = 1.0 + ((3 * t + 5 * li) % 7) + 0.5 * (li % 2)
+            elif parts[0] == "pos2":
+                v = 2.0 + ((5 * t + 3 * li) % 4) * 1.5
+            elif parts[0] == "mixed":
+                v = ((3 * t + 5 * li) % 7) - 2.5
+            elif parts[0] == "inc":
+                v = 5.0 + 3.0 * t + li
+            elif parts[0] == "dec":
+                v = 40.0 - 6.0 * t - li
+            elif parts[0] == "hump":
+                v = 10.0 + 4.0 * min(t, n - 1 - t) + 2 * li
+            elif parts[0] == "tail0":  # positive, then exactly zero in the trailing steps
+                v = (6.0 + li - t) if t < n - 2 else 0.0
+            elif parts[0] == "mid0":  # exactly zero in a middle year after a positive one
+                v = 0.0 if t == 1 else 4.0 + t + li
+            else:
+                raise ValueError(name)
+            out[(t, lab)] = v
+    return out
+
+
+def run_stock(kind, grid, lt, quad, extra, shapes, driver, via="ctor", int_dtype=False, pass_arrays=False):
+    """Build and compute one dynamic stock model.  `driver`: dict (t,label)->value (inflow for
+    'inflow', prescribed stock for 'stock-*').  Returns dict of observed tables + the object."""
+    import flodym
+
+    dist, base = lt
+    dims = make_dims(grid, extra)
+    lm = make_lifetime(dist, dims, base, shapes, extra, quad[0], quad[1], via)
+    n = len(grid)
+    shape = (n,) + tuple(k for _, k in extra)
+    dv = np.zeros(shape, dtype=np.int64 if int_dtype else float)
+    for (t, lab), v in driver.items():
+        dv[(t,) + lab] = v
+    kw = {}
+    if kind == "inflow":
+        cls = flodym.InflowDrivenDSM
+        which = "inflow"
+    else:
+        cls = flodym.StockDrivenDSM
+        which = "stock"
+        kw["solver"] = kind.split("-")[1]
+    if pass_arrays or int_dtype:
+        kw[which] = flodym.StockArray(dims=dims, values=dv.copy())
+        s = cls(dims=dims, lifetime_model=lm, **kw)
+    else:
+        s = cls(dims=dims, lifetime_model=lm, **kw)
+        getattr(s, which).values[...] = dv
+    s.compute()
+    out = dict(
+        obj=s,
+        stock=series_from_nd(s.stock.values, extra),
+        inflow=series_from_nd(s.inflow.values, extra),
+        outflow=series_from_nd(s.outflow.values, extra),
+        sbc=table_from_nd(s.get_stock_by_cohort(), extra),
+        obc=table_from_nd(s.get_outflow_by_cohort(), extra),
+        driver_after=series_from_nd(getattr(s, which).values, extra),
+    )
+    return out
+
+
+def scale_of(res, grid):
+    dt = dsm.dts(grid)
+    m = 1.0
+    for k in ("stock", "inflow", "outflow"):
+        for (t, lab), v in res[k].items():
+            f = abs(v) * (dt[t] if k != "stock" else 1.0)
+            if f > m and f == f:
+                m = f
+    return m
